@@ -198,4 +198,31 @@ theorem mod_97_10_calc_check_digits_spec (number : Str)
     have h1 := hr.1; have h2 := hr.2
     exact ⟨fmtD_allDigits_of_nonneg 2 (by omega), fmtD_length_eq 2 (by omega) (by omega) (by omega)⟩
 
+/-! ## partial-correctness variants (families with exceptional post-condition `True`) -/
+
+theorem luhn_checksum_pc (n a : Str) :
+    ⦃⌜True⌝⦄ Gen.luhn.checksum n a ⦃post⟨fun _ => ⌜True⌝, fun _ => ⌜True⌝⟩⦄ := any_pc _
+
+theorem luhn_calc_check_digit_pc (number alphabet : Str) :
+    ⦃⌜True⌝⦄ Gen.luhn.calc_check_digit number alphabet
+    ⦃post⟨fun r => ⌜∃ c ∈ alphabet, r = [c]⌝, fun _ => ⌜True⌝⟩⦄ := by
+  mvcgen [Gen.luhn.calc_check_digit, luhn_checksum_pc, -Py.getItem_spec, -Py.getItem_spec2, Py.getItem_pc]
+  all_goals (intros; first | trivial | skip)
+  all_goals (rename_i hr; obtain ⟨c, hc, rfl, _⟩ := hr; exact ⟨c, hc, rfl⟩)
+
+theorem mod_97_10_checksum_pc (n : Str) :
+    ⦃⌜True⌝⦄ Gen.iso7064_mod_97_10.checksum n ⦃post⟨fun _ => ⌜True⌝, fun _ => ⌜True⌝⟩⦄ := any_pc _
+
+theorem to_base10_pc (n : Str) :
+    ⦃⌜True⌝⦄ Gen.iso7064_mod_97_10._to_base10 n ⦃post⟨fun _ => ⌜True⌝, fun _ => ⌜True⌝⟩⦄ := any_pc _
+
+theorem mod_97_10_calc_check_digits_pc (number : Str) :
+    ⦃⌜True⌝⦄ Gen.iso7064_mod_97_10.calc_check_digits number
+    ⦃post⟨fun r => ⌜AllIn isAscii r⌝, fun _ => ⌜True⌝⟩⦄ := by
+  mvcgen [Gen.iso7064_mod_97_10.calc_check_digits, mod_97_10_checksum_pc]
+  all_goals (intros; first | trivial | skip)
+  all_goals exact (fmtD_allIn _ _ _).of_imp (fun c hc => by
+    simp only [isAsciiDigit, Bool.or_eq_true, Bool.and_eq_true, decide_eq_true_eq, beq_iff_eq] at hc
+    simp only [isAscii, decide_eq_true_eq]; omega)
+
 end Py.Contracts
